@@ -44,6 +44,23 @@ def showInfo (i : Info) : String :=
 
 def optNat (o : Option Nat) : String := match o with | some x => toString x | none => "-"
 
+/-- length of the decomposition chain of `c` (first components), `none` beyond `fuel` steps -/
+def chainLen : Nat → Nat → Option Nat
+  | 0, _ => none
+  | fuel + 1, c =>
+    match genU.decomp c with
+    | none => some 0
+    | some (a, _) => (chainLen fuel a).map (· + 1)
+
+def maxDepth (lo : Nat) : Nat → Nat → Option Nat
+  | 0, best => some best
+  | n + 1, best =>
+    let c := lo + n
+    if 0xD800 ≤ c ∧ c ≤ 0xDFFF then maxDepth lo n best
+    else match chainLen genFuel c with
+      | none => none
+      | some d => maxDepth lo n (max best d)
+
 def cmds : List String := ["norm"]
 
 def handle (ts : List String) : Option String :=
@@ -54,6 +71,9 @@ def handle (ts : List String) : Option String :=
   | ["decompose", c] => do
       let c ← c.toNat?
       pure (match genU.decomp c with | some (a, b) => s!"{a} {b}" | none => "-")
+  | ["depth", lo, hi] => do
+      let lo ← lo.toNat?; let hi ← hi.toNat?
+      pure (match maxDepth lo (hi + 1 - lo) 0 with | some d => toString d | none => "deeper-than-fuel")
   | ["props", c] => do
       let c ← c.toNat?
       pure s!"{b2s (genU.isMark c)} {b2s (genU.isSpace c)} {genU.mcc c} {b2s (genU.isDI c)} {b2s (genU.isVS c)} {genU.spaceFallback c}"
